@@ -232,10 +232,12 @@ theorem wf_install (s : State) (d : Nat) (h : WF s) (ha : s.active = true) (hd :
       rw [dropLast_reverse_tail]
       cases hrev : s.deltas.reverse with
       | nil =>
+        -- impossible: at least `max keep 1 ≥ 1` deltas are retained when one is dropped
         have : s.deltas = [] := by simpa using hrev
-        have hz := h.nonempty this
-        simp only [this, List.length_nil, hrev, hz] at hsnoc ⊢
-        simpa using hsnoc
+        rw [this] at hk
+        have : 1 ≤ max s.keep 1 := Nat.le_max_right _ _
+        simp only [List.length_nil] at hk
+        omega
       | cons x xs =>
         rw [hrev] at hsnoc
         have hlen : s.deltas.length = xs.length + 1 := by
